@@ -124,7 +124,8 @@ impl<T> ChanSender<T> {
 pub struct ChanReceiver<T> { pub queue: Ghost<Seq<T>>, pub closed: Ghost<bool> }
 impl<T> ChanReceiver<T> {
     #[verifier::external_body]
-    pub fn close(&mut self)
+    pub fn close(&mut self, Ghost(reason_recorded): Ghost<bool>)
+        requires reason_recorded,        // [C13.session.stop-reason-before-links-closed] the links learn of the session's end through the closure of this channel: the reason they will report (the peer's error in particular) is recorded BEFORE the channel is closed, never after
         ensures final(self).queue@ == old(self).queue@, final(self).closed@,
     { unimplemented!() }
     #[verifier::external_body]
@@ -326,12 +327,13 @@ impl SessionEngine {
 //@@ subst `.map(SessionOutgoingItem::SingleFrame)` => `.map(|v0: SessionFrame| -> (o: SessionOutgoingItem) ensures o == SessionOutgoingItem::SingleFrame(v0) { SessionOutgoingItem::SingleFrame(v0) })` rule=R18
 //@@ subst `.map(Some)` => `.map(|v0: SessionOutgoingItem| -> (o: Option<SessionOutgoingItem>) ensures o == Some(v0) { Some(v0) })` rule=R18
 //@@ subst `&self.outgoing` => `&mut self.outgoing` rule=R9
+//@@ subst `self.outgoing_link_frames.close()` => `self.outgoing_link_frames.close(Ghost(self.session.stop is Some))` rule=optional-R9
 //@@ subst `unreachable!("LinkFrame::Acquisition should not appear in outgoing link frames")` => `{ assume(false); None }` rule=optional-R12
 //@@ spec
     requires
         !(frame is Acquisition),    // ASSUMED: links never queue the (unimplemented) transactional acquisition marker; the arm is `unreachable!`
     ensures
-        final(self).incoming == old(self).incoming,
+        final(self).incoming == old(self).incoming, final(self).session.stop == old(self).session.stop,
         !(old(self).session.st is Mapped || old(self).session.st is EndReceived) ==> r is Err && final(self).outgoing.sent@ == old(self).outgoing.sent@,   // [C13.session.no-link-frame-unless-mapped] once an End has been sent (EndSent / Discarding / Unmapped) or before the session is mapped, no link frame is put on the channel
         final(self).session.st == old(self).session.st && final(self).session.ch == old(self).session.ch && final(self).session.stop == old(self).session.stop,
         final(self).outgoing_link_frames == old(self).outgoing_link_frames,
@@ -344,6 +346,7 @@ impl SessionEngine {
 //@@ attr #[verifier::loop_isolation(false)]
 //@@ subst `result?;` => `match result { Ok(v) => v, Err(e) => return Err(state_err_into(e)) };` rule=optional-R24
 //@@ subst `&self.outgoing` => `&mut self.outgoing` rule=R9
+//@@ subst `self.outgoing_link_frames.close()` => `self.outgoing_link_frames.close(Ghost(self.session.stop is Some))` rule=optional-R9
 //@@ subst `SessionStopReason::from(reason.clone())` => `stop_reason_from_conn(reason.clone())` rule=R16
 //@@ subst `|_v0|` => `|_v0: ChanSendError|` rule=optional-R5
 //@@ subst `|_v1|` => `|_v1: ChanSendError|` rule=optional-R5
@@ -366,6 +369,8 @@ impl SessionEngine {
         !(incoming.body is End) ==> final(self).outgoing_link_frames == old(self).outgoing_link_frames,
         (old(self).session.st is EndSent || old(self).session.st is Discarding) && !(incoming.body is End) ==> final(self).session.st == old(self).session.st,
         (old(self).session.st is EndSent || old(self).session.st is Discarding) ==> final(self).outgoing.sent@ == old(self).outgoing.sent@,   // [C13.session.nothing-after-end] once the local End is out NOTHING follows it on the channel, whatever still arrives from the peer (a Flow that re-opens its window or asks for an echo, transfers that use up the incoming window, dispositions to be echoed)
+        incoming.body is End && (old(self).session.st is Mapped || old(self).session.st is BeginSent || old(self).session.st is BeginReceived) && old(self).session.stop is None
+            && incoming.body->End_0.error is Some ==> final(self).session.stop == Some(SessionStopReason::RemoteEndedWithError(incoming.body->End_0.error->Some_0)),   // [C13.session.peer-end-error-published] the error carried by the peer's end is what every link operation that fails because of it reports
         incoming.body is End && (old(self).session.st is EndSent || old(self).session.st is Discarding) ==>
             final(self).session.st is Unmapped && final(self).outgoing.sent@ == old(self).outgoing.sent@
             && (incoming.body->End_0.error is None ==> r == Ok::<Running, SessionInnerError>(Running::Stop)),       // [C13.session.end-completed] the peer's answer to our end completes the session: nothing more is sent and the engine stops
@@ -373,6 +378,7 @@ impl SessionEngine {
         invariant
             self.outgoing_link_frames.closed@, self.incoming == old(self).incoming,
             self.session.st is EndReceived, self.session.ch == old(self).session.ch,
+            old(self).session.stop is None && incoming.body->End_0.error is Some ==> self.session.stop == Some(SessionStopReason::RemoteEndedWithError(incoming.body->End_0.error->Some_0)),
             extended_without_end(old(self).outgoing.sent@, self.outgoing.sent@),
             self.outgoing.failures@ >= old(self).outgoing.failures@,
             forall|i: int| 0 <= i < self.outgoing_link_frames.queue@.len() ==> !((#[trigger] self.outgoing_link_frames.queue@[i]) is Acquisition),
@@ -412,6 +418,7 @@ impl SessionEngine {
 //@@ qmark
 //@@ orsplit
 //@@ subst `&self.outgoing` => `&mut self.outgoing` rule=R9
+//@@ subst `self.outgoing_link_frames.close()` => `self.outgoing_link_frames.close(Ghost(self.session.stop is Some))` rule=optional-R9
 //@@ subst `|_v0|` => `|_v0: SessionStateError|` rule=optional-R5
 //@@ subst `|_v1|` => `|_v1: SessionStateError|` rule=optional-R5
 //@@ spec
@@ -464,6 +471,7 @@ impl SessionEngine {
 //@@ qmark
 //@@ attr #[verifier::loop_isolation(false)]
 //@@ subst `&self.outgoing` => `&mut self.outgoing` rule=R9
+//@@ subst `self.outgoing_link_frames.close()` => `self.outgoing_link_frames.close(Ghost(self.session.stop is Some))` rule=optional-R9
 //@@ subst `definitions::Error::new(condition, description, None)` => `amqp_error_new(condition, description)` rule=R11
 //@@ subst `result.map_err(Into::into)` => `alloc_err_into(result)` rule=R17
 //@@ spec
